@@ -40,6 +40,8 @@ type PackWriter struct {
 	// promisor, when non-nil, writes a .promisor sidecar next to the pack
 	// carrying these contents. A nil value leaves the pack unmarked.
 	promisor *string
+	// onClose, when non-nil, runs once Close has finished its work.
+	onClose func()
 }
 
 func newPackWrite(fs billy.Filesystem, format formatcfg.ObjectFormat, writeRev bool) (*PackWriter, error) {
@@ -112,6 +114,10 @@ func (w *PackWriter) Close() error {
 		}
 
 		close(w.result)
+
+		if w.onClose != nil {
+			w.onClose()
+		}
 	}()
 
 	if err := w.synced.Close(); err != nil {
@@ -375,6 +381,8 @@ type ObjectWriter struct {
 	objfile.Writer
 	fs billy.Filesystem
 	f  billy.File
+	// onClose, when non-nil, runs once Close has finished its work.
+	onClose func()
 }
 
 func newObjectWriter(fs billy.Filesystem, objectFormat formatcfg.ObjectFormat) (*ObjectWriter, error) {
@@ -392,6 +400,10 @@ func newObjectWriter(fs billy.Filesystem, objectFormat formatcfg.ObjectFormat) (
 
 // Close finalizes the object and moves it to its permanent location.
 func (w *ObjectWriter) Close() error {
+	if w.onClose != nil {
+		defer w.onClose()
+	}
+
 	if err := w.Writer.Close(); err != nil {
 		return err
 	}
